@@ -148,7 +148,10 @@ func (a *Act) instr(st *State, b *ssa.BasicBlock, instr ssa.Instruction) {
 		x := a.val(in.X)
 		si := sorts.structOf(in.X.Type())
 		if si == nil {
-			a.vals[in] = tr.freshConst("opaquefield", a.sortOf(in.Type()))
+			// a struct of a foreign package: its fields are functions of the (opaque) value
+			fn := "ofld_" + mangle(typeKey(in.X.Type())) + "_" + fmt.Sprint(in.Field)
+			tr.eng.declareOnce(tr, fn, fmt.Sprintf("(declare-fun %s (Int) %s)", fn, a.sortOf(in.Type())))
+			a.setVal(in, app(fn, x))
 			return
 		}
 		a.setVal(in, app(si.fields[in.Field], x))
